@@ -5,11 +5,11 @@ import Reduino.Lemmas.C01h
 namespace Reduino.Lemmas.C01
 open Reduino.Lang
 
-theorem C_passes_mono {te : C.TyEnv} {f f' : Nat} {b : Stmt} {n : Nat} {st : Py.St} (hle : f ≤ f')
-    (h : C.passes te f b n st ≠ .error .fuel) : C.passes te f' b n st = C.passes te f b n st := by
+theorem C_passes_mono {te : C.TyEnv} {f f' : Nat} {b : Stmt} {n : Nat} {st : Py.St} {m : C.Mode} (hle : f ≤ f')
+    (h : C.passes te f b n st m ≠ .error .fuel) : C.passes te f' b n st m = C.passes te f b n st m := by
   induction hle with
   | refl => rfl
-  | step _ ih => rw [← ih]; exact C_passes_mono1 te _ b n st (by rw [ih]; exact h)
+  | step _ ih => rw [← ih]; exact C_passes_mono1 te _ b n st m (by rw [ih]; exact h)
 
 theorem passes_skip (te : C.TyEnv) (f N : Nat) (st : Py.St) (hfl : st.flow = .normal) :
     C.passes te (f + 1) .skip N st = .ok st := by
@@ -41,7 +41,7 @@ theorem passes_sim (all : List String) (te : C.TyEnv) (b b' : Stmt) (f : Nat)
       · rename_i hbr
         rw [if_neg hbr]
         exact ih st1 stc1 stp' hr hpy
-    · rw [hc]; right; rfl
+    · right; exact ub_bind _ hc
 
 theorem Inv_empty : Inv {} :=
   ⟨rfl, fun g hg => (by cases hg), List.Pairwise.nil⟩
@@ -55,9 +55,9 @@ theorem prologue_sim (pre : Stmt) (all : List String) (te : C.TyEnv) (acc : TopA
     ((∃ s0 stc0 f1, C.initGlobals acc.te acc.globals.reverse [] = .ok s0 ∧
         C.exec acc.te f1 (seqOf acc.setup.reverse) { store := s0, trace := [] } = .ok stc0 ∧
         StRel acc.te st0 stc0) ∨
-     C.initGlobals acc.te acc.globals.reverse [] = .error .overflow ∨
+     UB (C.initGlobals acc.te acc.globals.reverse []) ∨
      (∃ s0 f1, C.initGlobals acc.te acc.globals.reverse [] = .ok s0 ∧
-        C.exec acc.te f1 (seqOf acc.setup.reverse) { store := s0, trace := [] } = .error .overflow)) := by
+        UB (C.exec acc.te f1 (seqOf acc.setup.reverse) { store := s0, trace := [] }))) := by
   obtain ⟨hte, _, _, hdecl, hinv, _⟩ := trTop_facts all pre {} acc te hokTop hacc
   obtain ⟨hI1, hI2, hI3⟩ := hinv Inv_empty
   subst hte
@@ -67,9 +67,10 @@ theorem prologue_sim (pre : Stmt) (all : List String) (te : C.TyEnv) (acc : TopA
     rcases hdecl x hx with h | h
     · cases h
     · exact hpreall x h
-  have hnf : ∀ g ∈ acc.globals.reverse, g.2.2.nameFree = true :=
+  have hgood : ∀ g ∈ acc.globals.reverse, GoodInit g.2.2 :=
     fun g hg => hI2 g (List.mem_reverse.1 hg)
-  rcases init_total acc.te acc.globals.reverse [] hnf with ⟨s0, hs0⟩ | hs0
+  have hnf : ∀ g ∈ acc.globals.reverse, g.2.2.nameFree = true := fun g hg => (hgood g hg).1
+  rcases init_total acc.te acc.globals.reverse [] hgood with ⟨s0, hs0⟩ | hs0
   · obtain ⟨hinit, _⟩ := init_spec acc.te acc.globals.reverse [] s0
       (List.pairwise_reverse.2 (hI3.imp fun h => h.symm)) hnf hs0
     obtain ⟨l, hl, hout⟩ := top_sim all acc.te acc.globals.reverse s0 fuel hallf hinit pre {} acc acc.te fuel
@@ -80,7 +81,7 @@ theorem prologue_sim (pre : Stmt) (all : List String) (te : C.TyEnv) (acc : TopA
     rcases hout with ⟨stc0, hc0, hr0, _⟩ | hc0
     · obtain ⟨f1, hf1⟩ := execList_seqOf acc.te fuel l.reverse _ _ hc0 (by intro e; cases e)
       left; exact ⟨s0, stc0, f1, hs0, by rw [hl']; exact hf1, hr0⟩
-    · obtain ⟨f1, hf1⟩ := execList_seqOf acc.te fuel l.reverse _ _ hc0 (by intro e; cases e)
+    · obtain ⟨f1, hf1⟩ := execList_seqOf_ub acc.te fuel l.reverse _ hc0
       right; right; exact ⟨s0, f1, hs0, by rw [hl']; exact hf1⟩
   · right; left; exact hs0
 
@@ -97,7 +98,7 @@ theorem InF_unfold (pre : Stmt) (body : Option Stmt) :
 
 theorem C01_partial_aux (p : Prog) (c : CProg) (N fuel : Nat) (t : List Ev)
     (hin : InF p = true) (htr : tr p = .ok c) (hpy : Py.run p N fuel = .ok t) :
-    ∃ fuel', C.run c N fuel' = .ok t ∨ C.run c N fuel' = .error .overflow := by
+    ∃ fuel', C.run c N fuel' = .ok t ∨ UB (C.run c N fuel') := by
   obtain ⟨pre, body⟩ := p
   rw [InF_unfold] at hin
   have hall1 : ∀ x ∈ pre.assigned, x ∈ allOf pre body := fun x hx => List.mem_append_left _ hx
@@ -153,20 +154,22 @@ theorem C01_partial_aux (p : Prog) (c : CProg) (N fuel : Nat) (t : List Ev)
         rw [C_exec_mono (Nat.le_max_left f1 f2) (by rw [hf1]; intro e; cases e), hf1]
       have hpass : C.passes acc.te (max f1 f2) loop N stc0 = C.passes acc.te f2 loop N stc0 := by
         apply C_passes_mono (Nat.le_max_right f1 f2)
-        rcases hsimN with ⟨stcN, h, _⟩ | h <;> rw [h] <;> intro e <;> cases e
+        rcases hsimN with ⟨stcN, h, _⟩ | h
+        · rw [h]; intro e; cases e
+        · exact UB_ne_fuel h
       unfold C.run
       simp only [htef, hs0, ok_bind, hsetup, hpass]
       rw [if_neg (by rw [hr0.fl, hfl0]; intro h; cases h)]
       rcases hsimN with ⟨stcN, h, hrN⟩ | h
       · left; rw [h, ok_bind, hrN.tr]; rfl
-      · right; rw [h]; rfl
+      · right; exact ub_bind _ h
     · refine ⟨0, .inr ?_⟩
       unfold C.run
-      simp only [htef, hs0]
-      rfl
+      simp only [htef]
+      exact ub_bind _ hs0
     · refine ⟨f1, .inr ?_⟩
       unfold C.run
-      simp only [htef, hs0, ok_bind, hf1]
-      rfl
+      simp only [htef, hs0, ok_bind]
+      exact ub_bind _ hf1
 
 end Reduino.Lemmas.C01
